@@ -52,7 +52,7 @@ type FuncCfg struct {
 	Pkg   string   `json:"pkg"`   // directory of the package inside the repo ("" = root)
 	Go    string   `json:"go"`    // "Recv.Name" or "Name"
 	Lean  string   `json:"lean"`  // name inside the namespace
-	Extra []string `json:"extra"` // package-level function variables that become parameters
+	Extra []string `json:"extra"` // callees (by their "go" name) that are parameters of the translated function
 }
 
 type Callee struct {
@@ -63,7 +63,9 @@ type Callee struct {
 	Types  []string `json:"types"`  // Go types of the (non-error) results
 	ErrNil bool     `json:"errnil"` // kind pure with a trailing error result that is always nil
 	Panics bool     `json:"panics"`
-	Param  string   `json:"param"` // function variables that become parameters: the Lean type of the parameter
+	Param  string   `json:"param"` // environment functions (DNS lookup, URL parser) become parameters: Lean type of the parameter
+	PName  string   `json:"param_name"`
+	Field  bool     `json:"field"` // "Type.Field" of a library type: a field read, not a call
 }
 
 // ---------------------------------------------------------------- packages of the repo
@@ -929,6 +931,11 @@ func (ft *ftrans) selector(c *ast.SelectorExpr, e env, pre *[]prelude) val {
 			}
 		}
 	}
+	for _, cal := range ft.t.mod.Callees {
+		if cal.Field && cal.Go == x.t+"."+c.Sel.Name && len(cal.Types) == 1 {
+			return val{s: "(" + subst(cal.Lean, atom(x.s), nil) + ")", t: cal.Types[0]}
+		}
+	}
 	failf("selector .%s on a value of type %q is outside the subset", c.Sel.Name, x.t)
 	return val{}
 }
@@ -1154,6 +1161,16 @@ func (ft *ftrans) findCallee(name string, args []ast.Expr, e env) *Callee {
 	return nil
 }
 
+func (t *translator) paramCallee(name string) *Callee {
+	for _, c := range t.mod.Callees {
+		if c.Go == name && c.Param != "" && c.PName != "" {
+			return c
+		}
+	}
+	failf("parameter %s needs an entry with \"param\" and \"param_name\" in the callee table", name)
+	return nil
+}
+
 func subst(tpl string, recv string, args []string) string {
 	s := strings.ReplaceAll(tpl, "{recv}", recv)
 	for i, a := range args {
@@ -1166,6 +1183,17 @@ func subst(tpl string, recv string, args []string) string {
 }
 
 func (ft *ftrans) applyCallee(c *Callee, recv string, args []ast.Expr, e env, pre *[]prelude) val {
+	if c.Param != "" {
+		found := false
+		for _, y := range ft.f.cfg.Extra {
+			if y == c.Go {
+				found = true
+			}
+		}
+		if !found {
+			failf("%s is an environment function and not a parameter of this function (\"extra\")", c.Go)
+		}
+	}
 	var as []string
 	for i, a := range args {
 		if c.Args != nil && i < len(c.Args) && c.Args[i] != "_" {
@@ -1227,9 +1255,9 @@ func (ft *ftrans) callFn(g *fn, recv *val, args []ast.Expr, e env, pre *[]prelud
 			}
 		}
 		if !found {
-			failf("%s needs the function variable %s, which the caller does not have as a parameter", g.cfg.Go, x)
+			failf("%s needs the parameter %s, which the caller does not have", g.cfg.Go, x)
 		}
-		as = append(as, x)
+		as = append(as, ft.t.paramCallee(x).PName)
 	}
 	term := ft.t.mod.Namespace + "." + g.cfg.Lean
 	if len(as) > 0 {
@@ -2249,18 +2277,9 @@ func (t *translator) translateBody(g *fn) {
 		ps = append(ps, "("+name+" : "+t.leanType(p.typ)+")")
 	}
 	for _, x := range g.cfg.Extra {
-		cal := (*Callee)(nil)
-		for _, c := range t.mod.Callees {
-			if c.Go == x {
-				cal = c
-			}
-		}
-		if cal == nil || cal.Param == "" {
-			failf("function variable %s needs an entry with \"param\" in the callee table", x)
-		}
-		// the package-level variable is found by name wherever the body mentions it
-		ps = append(ps, "("+x+" : "+cal.Param+")")
-		ft.used[x] = true
+		cal := t.paramCallee(x)
+		ps = append(ps, "("+cal.PName+" : "+cal.Param+")")
+		ft.used[cal.PName] = true
 	}
 	var rts []string
 	for _, r := range g.results {
